@@ -101,10 +101,18 @@ func (w *websocket) message() {
 			return
 		}
 
+		// the connection's read limit counts the bytes of a message as they are on
+		// the wire: with permessage-deflate a few bytes inflate to a message of
+		// any size, so the message itself is bounded here
+		payload := message
+		if limit := w.MaxHttpBufferSize(); limit > 0 {
+			payload = &limitedMessage{r: message, n: limit}
+		}
+
 		switch mt {
 		case ws.BinaryMessage:
 			read := types.NewBytesBuffer(nil)
-			if _, err := read.ReadFrom(message); err != nil {
+			if _, err := read.ReadFrom(payload); err != nil {
 				if errors.Is(err, net.ErrClosed) {
 					w.socket.Emit("close")
 				} else {
@@ -115,7 +123,7 @@ func (w *websocket) message() {
 			}
 		case ws.TextMessage:
 			read := types.NewStringBuffer(nil)
-			if _, err := read.ReadFrom(message); err != nil {
+			if _, err := read.ReadFrom(payload); err != nil {
 				if errors.Is(err, net.ErrClosed) {
 					w.socket.Emit("close")
 				} else {
@@ -137,6 +145,27 @@ func (w *websocket) message() {
 			c.Close()
 		}
 	}
+}
+
+// limitedMessage reads at most n bytes of a message and fails with the
+// connection's own read limit error when the message goes on.
+type limitedMessage struct {
+	r io.Reader
+	n int64
+}
+
+func (l *limitedMessage) Read(p []byte) (int, error) {
+	if l.n < 0 {
+		return 0, ws.ErrReadLimit
+	}
+	if int64(len(p)) > l.n+1 {
+		p = p[:l.n+1]
+	}
+	n, err := l.r.Read(p)
+	if l.n -= int64(n); l.n < 0 {
+		return 0, ws.ErrReadLimit
+	}
+	return n, err
 }
 
 func (w *websocket) onMessage(data types.BufferInterface) {
